@@ -85,7 +85,7 @@ func newSys39(cfg *sysConfig, nKeys int, maxEpoch uint32) *sys39 {
 	v.deploy(vm.StakingSCAddress)
 	v.deploy(vm.ValidatorSCAddress)
 	v.deploy(vm.DelegationManagerSCAddress)
-	y.genesis = w
+	y.genesis = w.clone() // a frozen copy: shared by all instances, never written
 	y.pool = &vmPool{cfg: cfg}
 	y.memo = newMemo(8192)
 	return y
@@ -472,7 +472,7 @@ func configs39(c *mc.Ctx) []*sysConfig {
 
 func runC39(c *mc.Ctx) {
 	nKeys := 4
-	depth := c.Pick(5, 7)
+	depth := pickDepth(c, 5, 7)
 	maxEpoch := uint32(2)
 	cfgs := configs39(c)
 	c.Rule = "non-trivial = a reached state whose waiting list is non-empty, counted per distinct (config, Length, LastJailedKey, FirstKey, StakedNodes)"
